@@ -152,8 +152,9 @@ def _selftests():
 
 
 def _report(ctx, seen, clause, case, detail, limit=2):
-    seen[clause] = seen.get(clause, 0) + 1
-    if seen[clause] <= limit:
+    key = "%s/%s" % (case["kind"], clause)
+    seen[key] = seen.get(key, 0) + 1
+    if seen[key] <= limit:
         ctx.violation(clause, case, detail)
 
 
